@@ -11,6 +11,7 @@ Design (why a failing discipline check stays local to its property):
     (.build[/alt-*]/gen/<pid>/ with logical prefix MVG), together with a private copy of the table.
     If it does not compile, only this property's obligation fails.
   * with VERIF_REPO pointing at a scratch worktree nothing under /verif/coq is written at all."""
+import glob
 import json
 import os
 import re
@@ -40,9 +41,11 @@ def write_if_changed(path, content):
     return True
 
 
-def translate(pid, sub, table_name, check_name, check_body, diag_body, ok_marker="Closed under the global context"):
+def translate(pid, sub, table_name, check_name, check_body, diag_body, dep_vos,
+              ok_marker="Closed under the global context", always_diag=False):
     """Runs `astx <sub>`, writes <table_name>.v / <check_name>.v, compiles them privately.
     check_body / diag_body are Coq texts in which `@TABLE@` stands for the Require line of the table.
+    dep_vos: the .vo files (relative to coq/) the check file depends on.
     Returns (ok, side_json, check_output, diag_output, notes)."""
     notes = []
     ok, log, exe = build_astx()
@@ -79,12 +82,34 @@ def translate(pid, sub, table_name, check_name, check_body, diag_body, ok_marker
         if not cok:
             return False, side, "", "", ["coq build failed: " + clog[-1500:]]
         base = ["timeout", "900", "coqc", "-Q", C.COQ, "MV", "-Q", gdir, "MVG"]
-        rc, out = C.sh(base + [tv], cwd=gdir)
-        if rc != 0:
-            return False, side, out, "", ["generated table does not compile: " + out[-1500:]]
-        rc, cout = C.sh(base + [os.path.join(gdir, check_name + ".v")], cwd=gdir)
+        cv = os.path.join(gdir, check_name + ".v")
+        outf = os.path.join(gdir, check_name + ".out")
+        deps = [tv, cv] + [os.path.join(C.COQ, d) for d in dep_vos]
+        newest = max(os.path.getmtime(d) for d in deps)
+        # like make: nothing is recompiled while the table, the check file and the Conc/*.vo it depends on
+        # are unchanged (the recorded coqc output is reused)
+        doutf = os.path.join(gdir, check_name + "Diag.out")
+        cached = os.path.exists(outf) and os.path.getmtime(outf) >= newest and os.path.exists(cv + "o")
+        if cached:
+            cout = open(outf).read()
+            rc = 0 if cout.startswith("rc=0\n") else 1
+        else:
+            rc, out = C.sh(base + [tv], cwd=gdir)
+            if rc != 0:
+                return False, side, out, "", ["generated table does not compile: " + out[-1500:]]
+            rc, cout = C.sh(base + [cv], cwd=gdir)
+            cout = "rc=%d\n" % rc + cout
+            with open(outf, "w") as f:
+                f.write(cout)
         ok = rc == 0 and ok_marker in cout
-        _, dout = C.sh(base + [os.path.join(gdir, check_name + "Diag.v")], cwd=gdir)
+        dout = ""
+        if not ok or always_diag:
+            if cached and os.path.exists(doutf) and os.path.getmtime(doutf) >= newest:
+                dout = open(doutf).read()
+            else:
+                _, dout = C.sh(base + [os.path.join(gdir, check_name + "Diag.v")], cwd=gdir)
+                with open(doutf, "w") as f:
+                    f.write(dout)
         return ok, side, cout, dout, notes
 
 
